@@ -177,7 +177,7 @@ pub fn write_replay(property: &str, monitors: &str, w: &Witness) -> String {
         "levels": w.levels,
         "profile": {
             "name": w.profile.name, "tick": w.profile.tick, "start_time": w.profile.start_time,
-            "start_trading": w.profile.start_trading, "trader_base": w.profile.trader_base,
+            "start_trading": w.profile.start_trading, "trader_base": w.profile.trader_base, "trader_mod": w.profile.trader_mod,
         },
         "steps": steps_to_json(&w.steps),
         "steps_readable": steps_pretty(&w.steps),
@@ -448,6 +448,7 @@ pub fn replay_file(path: &str) -> i32 {
         p.start_time = pr.get("start_time").and_then(|x| x.as_u64()).unwrap_or(0);
         p.start_trading = pr.get("start_trading").and_then(|x| x.as_bool()).unwrap_or(true);
         p.trader_base = pr.get("trader_base").and_then(|x| x.as_u64()).unwrap_or(100) as u32;
+        p.trader_mod = pr.get("trader_mod").and_then(|x| x.as_u64()).unwrap_or(0) as u32;
         let steps = match v.get("steps").and_then(steps_from_json) {
             Some(s) => s,
             None => {
